@@ -46,6 +46,95 @@ type FinInterp struct {
 	// Store observes assignments whose target is not a plain identifier
 	// (field / map / index stores).
 	Store func(lhs ast.Expr, v interface{})
+	// M (optional) lets the evaluator read package-level lookup tables: a map variable initialised by a composite
+	// literal with constant keys that is written nowhere in the module is a finite function.
+	M *Module
+}
+
+// finTable is a package-level map literal read as a finite function.
+type finTable struct {
+	entries map[interface{}]interface{}
+	zero    interface{}
+}
+
+// table returns the finite function a package-level map variable stands for, or nil.
+func (it *FinInterp) table(o types.Object) *finTable {
+	v, ok := o.(*types.Var)
+	if !ok || it.M == nil || v.Pkg() == nil || v.Parent() != v.Pkg().Scope() {
+		return nil
+	}
+	mt, ok := v.Type().Underlying().(*types.Map)
+	if !ok {
+		return nil
+	}
+	p := it.M.PkgOf(v)
+	if p == nil {
+		return nil
+	}
+	var init ast.Expr
+	written := false
+	for _, q := range it.M.Roots {
+		for _, file := range q.Syntax {
+			ast.Inspect(file, func(n ast.Node) bool {
+				switch x := n.(type) {
+				case *ast.ValueSpec:
+					for i, nm := range x.Names {
+						if q.TypesInfo.Defs[nm] == types.Object(v) && i < len(x.Values) {
+							init = x.Values[i]
+						}
+					}
+				case *ast.AssignStmt:
+					for _, l := range x.Lhs {
+						e := unparen(l)
+						if ix, ok := e.(*ast.IndexExpr); ok {
+							e = unparen(ix.X)
+						}
+						if ObjOf(q.TypesInfo, e) == types.Object(v) {
+							written = true
+						}
+					}
+				case *ast.CallExpr:
+					if b, ok := ObjOf(q.TypesInfo, x.Fun).(*types.Builtin); ok && (b.Name() == "delete" || b.Name() == "clear") && len(x.Args) >= 1 && ObjOf(q.TypesInfo, x.Args[0]) == types.Object(v) {
+						written = true
+					}
+				case *ast.UnaryExpr:
+					if x.Op == token.AND && ObjOf(q.TypesInfo, x.X) == types.Object(v) {
+						written = true
+					}
+				}
+				return true
+			})
+		}
+	}
+	cl, ok := unparen(init).(*ast.CompositeLit)
+	if !ok || written {
+		return nil
+	}
+	t := &finTable{entries: map[interface{}]interface{}{}, zero: zeroOf(mt.Elem())}
+	sub := &FinInterp{Info: p.TypesInfo}
+	for _, el := range cl.Elts {
+		kv, ok := el.(*ast.KeyValueExpr)
+		if !ok {
+			return nil
+		}
+		k, err1 := sub.Eval(kv.Key, FinEnv{})
+		val, err2 := sub.Eval(kv.Value, FinEnv{})
+		if err1 != nil || err2 != nil {
+			return nil
+		}
+		switch k.(type) {
+		case int64, string, bool:
+		default:
+			return nil
+		}
+		switch val.(type) {
+		case int64, string, bool:
+		default:
+			return nil
+		}
+		t.entries[k] = val
+	}
+	return t
 }
 
 type finCtl int
@@ -544,6 +633,17 @@ func (it *FinInterp) Eval(e ast.Expr, env FinEnv) (interface{}, error) {
 			return items, nil
 		}
 	case *ast.IndexExpr:
+		if t := it.table(ObjOf(it.Info, x.X)); t != nil {
+			if i, err := it.Eval(x.Index, env); err == nil {
+				switch i.(type) {
+				case int64, string, bool:
+					if v, ok := t.entries[i]; ok {
+						return v, nil
+					}
+					return t.zero, nil
+				}
+			}
+		}
 		if l, err := it.Eval(x.X, env); err == nil {
 			if items, ok := l.([]interface{}); ok {
 				if i, err := it.Eval(x.Index, env); err == nil {
